@@ -69,6 +69,7 @@ def run(ctx):
     ctx.rule("C05.1", "compact's call closure reads every data field of L0Run and reaches BTree::delete")
     ctx.rule("C05.2", "deleted-node set of a snapshot derives from persisted state; segment builder sees older segments or CsrSegment carries tombstones")
     ctx.rule("C05.3", "edge-less CsrSegment literals keep sentinel reverse offsets")
+    ctx.rule("C05.5", "whole-map property readers merge the compacted store on every path (no early return with the runs' map only)")
     ctx.rule("C05.4", "a property removed in a run masks the value stored by an earlier compaction (store fall-through needs a 3-state overlay result)")
 
     # ---- clause 1 ---------------------------------------------------------
@@ -221,3 +222,58 @@ def run(ctx):
                    "property store: REMOVE n.p / SET n.p = null has no visible effect once the old value has been compacted", b.file,
                    sample={"method": m, "overlay": [o.name for o in overlay], "store": [s.name for s in stores]})
     ctx.floor("C05.4", "snapshot property readers with store fall-through", n4, 4)
+
+    # ---- clause 5 ---------------------------------------------------------
+    # Compaction moves properties from the runs into the store.  A whole-map reader that returns the runs' map without
+    # merging the store loses every property that was compacted earlier as soon as a later run mentions the entity.
+    from ..mirutil import switch_on
+    from ..facts import op_const
+    n5 = 0
+    for i, b in sorted(F.bodies.items()):
+        if b.kind == "closure" or b.self_ty != SS or b.impl_trait != "nervusdb_api::GraphSnapshot":
+            continue
+        if "BTreeMap" not in b.local_ty(0):
+            continue
+        stores = [c for c in b.calls() if c.name.startswith("nervusdb_storage::read_path_property_store::") and c.name.endswith("_from_store")]
+        if not stores:
+            continue
+        n5 += 1
+        # the `properties_root != 0` test: its `root == 0` arm may skip the store
+        skip_ok = set()
+        for bi in range(len(b.blocks)):
+            sw = switch_on(b, bi)
+            if not sw:
+                continue
+            l, neg, arms, other = sw
+            sd = b.single_def(l)
+            if not sd or sd[2] != "assign" or sd[3][2][0] != "bin" or sd[3][2][1] not in ("Ne", "Eq"):
+                continue
+            rv = sd[3][2]
+            opsx = [rv[2], rv[3]]
+            zero = any(op_const(o) and op_const(o).get("v") == 0 for o in opsx)
+            root = False
+            for o in opsx:
+                lo = op_local(o)
+                if lo is not None:
+                    og = b.origin(lo)
+                    if og and og[0] == "place" and any(isinstance(p, list) and p[0] == "f" and p[2] == "properties_root" for p in og[1][1]):
+                        root = True
+            if not (zero and root):
+                continue
+            t_false = [tb for v, tb in arms if v == 0]
+            t_false = t_false[0] if t_false else None
+            t_true = other
+            if neg:
+                t_true, t_false = t_false, t_true
+            zero_arm = t_false if rv[1] == "Ne" else t_true
+            if zero_arm is not None:
+                skip_ok.add(zero_arm)
+        avoid = {c.bb for c in stores} | skip_ok | paths.fail_blocks(b)
+        seen = b.reachable([0], avoid=avoid)
+        rets = [r for r in b.return_blocks() if r in seen]
+        m = i.split("::")[-1]
+        ctx.instance("C05.5", "%s: returns that bypass the store merge: %s" % (m, rets or "none"))
+        ctx.oblige(not rets and bool(skip_ok), "C05.5", "StorageSnapshot::%s:returns-without-store-merge" % m,
+                   "the whole-map reader can return without merging the property store although properties_root != 0: after a compaction, a "
+                   "partial update of an entity hides all of its compacted properties", b.file, sample={"method": m})
+    ctx.floor("C05.5", "whole-map readers", n5, 2)
